@@ -225,10 +225,19 @@ def quicksum_stub(self, it):
     return sum_(it)
 
 
-def induct(c, name, P_, n, prop=None):
-    """proof by induction on j in [0, n] of P_(j): emits base and step obligations (Skolem j), returns forall j. 0<=j<=n => P_(j).
-    The step may use whatever unfoldings the caller has put into the path condition for the Skolem constant it passes."""
-    raise NotImplementedError
+def induct(c, name, P_, n, prop=None, hyps=(), step_facts=None):
+    """proof by induction on j in [0, n] of P_(j) (a z3 Bool builder): emits `lemma` obligations base and step (Skolem j) and
+    returns the conclusion  forall j. 0<=j<=n => P_(j)  for the caller to assume (induction principle over naturals: trusted engine rule)."""
+    n = lift(n)
+    c.prove("lemma:%s:base" % name, z3.Implies(z3.And(*hyps) if hyps else z3.BoolVal(True), P_(z3.IntVal(0))), prop=prop, kind="lemma")
+    j = z3.Int(c.name("ind_j"))
+    step = z3.Implies(z3.And(j >= 0, j < n, P_(j), *hyps), P_(j + 1))
+    if step_facts is None:
+        c.prove("lemma:%s:step" % name, step, prop=prop, kind="lemma")
+    else:       # explicit instances of the quantified hypotheses at the Skolem index keep the (nonlinear) step query quantifier-free
+        c.prove_from("lemma:%s:step" % name, step_facts(j), step, prop=prop, kind="lemma")
+    q = z3.Int(c.name("ind_q"))
+    return z3.Implies(z3.And(*hyps) if hyps else z3.BoolVal(True), z3.ForAll([q], z3.Implies(z3.And(q >= 0, q <= n), P_(q))))
 
 
 # ============================================================================================
@@ -280,4 +289,651 @@ def u_binary_product():
                 callee_contracts=["SolverWrapper.add_constraint"])
 
 
-UNITS = [u_add_constraint, u_quicksum, u_binary_product]
+def add_variables_stub(self, indexes, name_prefix="", lb=0, ub=1, var_type="integer"):
+    """contract of SolverWrapper.add_variables for scalar bounds: one fresh column per index, bounds/integrality enter `holds`.
+    Returns an abstract map index -> Var.  Recorded in self.created for witness selection (LM5)."""
+    c = core.ctx()
+    if isinstance(indexes, LazyMap):
+        indexes = indexes.to_seq()
+    if isinstance(indexes, SymRange):
+        indexes = SymSeq(lift(indexes.length()), indexes.at, SInt, "range")
+    if not isinstance(indexes, SymSeq):
+        indexes = as_seq(list(indexes), SInt)
+    if isinstance(lb, (SymSeq, SymMap, dict, list)) or isinstance(ub, (SymSeq, SymMap, dict, list)):
+        raise Unsupported("add_variables stub: per-index bounds")
+    vsort = INT if var_type == "integer" else REAL
+    val = z3.Function(c.name("val_" + str(name_prefix)[:12].replace("<", "").replace(">", "")), INT, vsort)
+    col = z3.Function(c.name("col"), INT, INT)
+    n = indexes.n
+    j = z3.Int(c.name("jv"))
+    k0 = z3.Int(c.name("k"))
+    idx = lambda jj: lift(indexes.at(jj))
+    v = lambda kk: (z3.ToReal(val(kk)) if vsort == INT else val(kk))
+    lo, hi = lift(lb), lift(ub)
+    lo = z3.ToReal(lo) if lo.sort() == INT else lo
+    hi = z3.ToReal(hi) if hi.sort() == INT else hi
+    bounds = z3.ForAll([j], z3.Implies(z3.And(j >= 0, j < n), z3.And(lo <= v(idx(j)), v(idx(j)) <= hi)))
+    self.store.add(bounds)
+    dom = lambda k: z3.Exists([j], z3.And(j >= 0, j < n, idx(j) == lift(k)))
+    m = SymMap(SInt, SVar(vsort), dom, lambda k: Var(val(lift(k)), Sym(col(lift(k)))), "vars_" + str(name_prefix)[:10])
+    rec = dict(val=val, col=col, indexes=indexes, lb=lo, ub=hi, vsort=vsort, bounds=bounds, map=m)
+    if not hasattr(self, "created"):
+        object.__setattr__(self, "created", [])
+    self.created.append(rec)
+    return m
+
+
+def u_piecewise():
+    """add_piecewise_constant_constraint: for pairwise disjoint ranges and x in range t, the rows (with some one-hot z) hold iff y = constants[t]."""
+    def mk():
+        st = {}
+
+        def inv(ns, seq, done):
+            me, d = ns["self"], lift(done)
+            i = z3.Int("ip")
+            z = st["z"]
+            L = lambda q: lift(st["ranges"].at(q)[0])
+            U = lambda q: lift(st["ranges"].at(q)[1])
+            C = lambda q: lift(st["constants"].at(q))
+            x, y, t = st["x"].t, st["y"].t, st["t"]
+            H = me.store.holds.t
+            sem = z3.ForAll([i], z3.Implies(z3.And(i >= 0, i < d, z(i) == 1), z3.And(L(i) <= x, x <= U(i), y == C(i))))
+            wit = z3.And(y == C(t), z3.ForAll([i], z3.Implies(z3.And(i >= 0, i < st["n"]), z(i) == z3.If(i == t, 1, 0))))
+            return {"sound(rows=>active-piece-semantics)": z3.Implies(H, z3.And(st["Hpre"], sem)),
+                    "complete(intended-assignment=>rows)": z3.Implies(z3.And(st["Hpre"], wit), H)}
+
+        def on_entry(ns):
+            me = ns["self"]
+            st["Hpre"] = me.store.holds.t           # the store when the loop is reached
+            st["z"] = me.created[-1]["val"]         # sigma-values of the fresh selector columns
+
+        def h(c, f):
+            me = SW()
+            me.add_constraint = lambda expr, name="": add_constraint_stub(me, expr, name)
+            me.quicksum = lambda it: quicksum_stub(me, it)
+
+            def add_vars(indexes, name_prefix="", lb=0, ub=1, var_type="integer"):
+                m = add_variables_stub(me, indexes, name_prefix, lb, ub, var_type)
+                return m
+            me.add_variables = add_vars
+            x, y = Var(z3.Real("x"), z3.Int("xcol")), Var(z3.Real("y"), z3.Int("ycol"))
+            ranges = SymSeq.fresh("ranges", STuple(SReal, SReal))
+            constants = SymSeq.fresh("constants", SReal)
+            n = ranges.n
+            H0 = me.store.holds.t
+            L = lambda q: lift(ranges.at(q)[0])
+            U = lambda q: lift(ranges.at(q)[1])
+            C = lambda q: lift(constants.at(q))
+            a, b = z3.Ints("ra rb")
+            t = z3.Int("t")
+            samelen = (n == constants.n)
+            # documented preconditions: non-overlapping ranges, x inside the union (range t)
+            c.assume(z3.ForAll([a], z3.Implies(z3.And(a >= 0, a < n), L(a) <= U(a))))
+            c.assume(z3.ForAll([a, b], z3.Implies(z3.And(a >= 0, a < n, b >= 0, b < n, a != b), z3.Or(U(a) < L(b), U(b) < L(a)))))
+            c.assume(z3.And(t >= 0, t < n, L(t) <= x.t, x.t <= U(t)))
+            c.cover("requires-satisfiable", samelen)
+            st.update(ranges=ranges, constants=constants, x=x, y=y, t=t, n=n)
+            try:
+                f(me, x, y, ranges, constants, "pw")
+            except ValueError:
+                c.prove("xpost:ValueError-only-if-lengths-differ", z3.Not(samelen), prop=P, kind="xpost")
+                return
+            c.prove("post:no-error=>lengths-equal", samelen, kind="post")
+            H = me.store.holds.t
+            z = st["z"]
+            i = z3.Int("iz")
+            onehot_facts = z3.And(st["Hpre"] == z3.And(H0, me.created[-1]["bounds"], c.sums[-1].S(n) == 1))
+            c.prove("aux:store-before-loop-is-H0+bounds+onehot-row", onehot_facts, kind="post")
+            # LM3 (one-hot), proved here by induction: if all z(w), w<j, are 0 then the prefix sum S(j) is 0
+            S = c.sums[-1]
+            c.assume(S.defn())                      # meaning of quicksum: S(j+1) = S(j) + z(j)
+            wq = z3.Int("wq")
+            allzero = lambda jj: z3.Implies(z3.ForAll([wq], z3.Implies(z3.And(wq >= 0, wq < jj), z(wq) == 0)), S.S(jj) == 0)
+            c.assume(induct(c, "LM3-all-zero-prefix-sums-to-zero", allzero, n))
+            c.prove("post:sound(rows=>y=constant-of-x's-range)", z3.Implies(H, z3.And(H0, y.t == C(t))), prop=P)
+            # completeness: the intended assignment (z = e_t, y = c_t) satisfies all rows; needs sum(e_t) = 1 (LM3')
+            wit = z3.And(y.t == C(t), z3.ForAll([i], z3.Implies(z3.And(i >= 0, i < n), z(i) == z3.If(i == t, 1, 0))))
+            unit = lambda jj: S.S(jj) == z3.If(jj > t, 1, 0)
+            c.assume(induct(c, "LM3'-unit-vector-sums-to-one", unit, n, hyps=[wit]))
+            c.prove("post:complete(y=constant-of-x's-range=>rows-satisfiable)", z3.Implies(z3.And(H0, wit), H), prop=P)
+        return h, inv, on_entry
+
+    h, inv, on_entry = mk()
+    loops = {0: dict(inv=inv, on_entry=on_entry, prop={"sound(rows=>active-piece-semantics)": P, "complete(intended-assignment=>rows)": P},
+                     modifies=[(("self", "store", "holds"), None)], keep=("L", "U", "c"))}
+    return Unit(F, "SolverWrapper.add_piecewise_constant_constraint", h, globs=BASE_GLOBS, loops=loops, props=[P],
+                assumptions=[A3, LM5, "LM3 one-hot lemma: integers in [0,1] summing to 1 have exactly one 1 (assumed in the VC; Lean-checked in thorough)"],
+                callee_contracts=["SolverWrapper.add_constraint", "SolverWrapper.quicksum", "SolverWrapper.add_variables (scalar bounds)"])
+
+
+class Log2Of:
+    def __init__(self, arg): self.arg = arg
+
+
+def log2_stub(x):
+    if isinstance(x, Sym):
+        if not core.ctx().decide(lift(x) > 0, "log2-domain"):
+            raise ValueError("math domain error")
+        return Log2Of(x)
+    import math
+    return math.log2(x)
+
+
+def ceil_stub(x):
+    """A3: ceil(log2(y)) is the real ceiling of log2 y, i.e. the least n with 2**n >= y (for y >= 1: n >= 0)"""
+    if isinstance(x, Log2Of):
+        c = core.ctx()
+        y = lift(x.arg)
+        if not c.decide(y >= 1, "clog2-arg>=1"):
+            raise Unsupported("ceil(log2(y)) for y < 1 (negative bit count)")
+        n = c.fresh_const("clog2", INT)
+        c.assume(n >= 0)
+        pn = core.pow2(Sym(n))
+        c.assume(z3.ToReal(pn.t) >= y if y.sort() == REAL else pn.t >= y)
+        c.assume(z3.Implies(n >= 1, (z3.ToReal(core.POW2(n - 1)) < y) if y.sort() == REAL else (core.POW2(n - 1) < y)))
+        c.assume(z3.Implies(n >= 1, core.POW2(n) == 2 * core.POW2(n - 1)))
+        return Sym(n)
+    import math
+    return math.ceil(x)
+
+
+def pow2_def():
+    q = z3.Int("pw_q")
+    return z3.ForAll([q], z3.Implies(q >= 0, z3.And(core.POW2(q + 1) == 2 * core.POW2(q), core.POW2(q) >= 1)))
+
+
+def binary_product_stub(self, binary_var, continuous_var, product_var, lb, ub, name=""):
+    """CONTRACT of add_binary_continuous_product_constraint (proved in its own unit): the store is extended by a formula R with
+    (b in {0,1} /\\ lb <= c <= ub)  =>  (R <=> p = b*c).  The caller learns nothing else about the rows."""
+    c = core.ctx()
+    R = z3.Bool(c.name("R_binprod"))
+    b, cc, p = lift(binary_var), lift(continuous_var), lift(product_var)
+    br = z3.ToReal(b) if b.sort() == INT else b
+    lo, hi = lift(lb), lift(ub)
+    lo = z3.ToReal(lo) if lo.sort() == INT else lo
+    hi = z3.ToReal(hi) if hi.sort() == INT else hi
+    c.assume(z3.Implies(z3.And(z3.Or(br == 0, br == 1), lo <= cc, cc <= hi), R == (p == br * cc)))
+    self.store.add(R)
+
+
+def u_integer_product():
+    """add_integer_continuous_product_constraint: rows (with some value of the fresh bit / component columns) hold iff p = x*c,
+    for integer 0 <= x <= ub, lb <= c <= ub, lb <= 0 <= ub (all call sites pass lb = 0)."""
+    st = {}
+
+    def on_entry(ns):
+        me = ns["self"]
+        st["Hpre"] = me.store.holds.t
+        st["beta"] = me.created[0]["val"]
+        st["gamma"] = me.created[1]["val"]
+
+    def all_prod(d):
+        i = z3.Int("ib")
+        return z3.ForAll([i], z3.Implies(z3.And(i >= 0, i < d), st["gamma"](i) == z3.ToReal(st["beta"](i)) * st["c"]))
+
+    def inv(ns, seq, done):
+        H = ns["self"].store.holds.t
+        return {"sound(rows=>component_i=bit_i*c)": z3.Implies(H, z3.And(st["Hpre"], all_prod(lift(done)))),
+                "complete(component_i=bit_i*c=>rows)": z3.Implies(z3.And(st["Hpre"], all_prod(st["n"])), H)}
+
+    def h(c, f):
+        me = SW()
+        me.add_constraint = lambda expr, name="": add_constraint_stub(me, expr, name)
+        me.quicksum = lambda it: quicksum_stub(me, it)
+        me.add_variables = lambda indexes, name_prefix="", lb=0, ub=1, var_type="integer": add_variables_stub(me, indexes, name_prefix, lb, ub, var_type)
+        me.add_binary_continuous_product_constraint = lambda **kw: binary_product_stub(me, **kw)
+        X, Cv, Pv = Var(z3.Int("X"), z3.Int("Xcol")), Var(z3.Real("C"), z3.Int("Ccol")), Var(z3.Real("P"), z3.Int("Pcol"))
+        lb, ub = Sym(z3.Real("lb")), Sym(z3.Real("ub"))
+        H0 = me.store.holds.t
+        c.assume(z3.And(lb.t <= 0, 0 <= ub.t))                     # requires (call sites: lb = 0, ub >= 0)
+        c.assume(z3.And(lb.t <= Cv.t, Cv.t <= ub.t))               # admissible sigma: bounds of the continuous factor
+        c.assume(pow2_def())                                       # definition of the spec function pow2
+        c.cover("requires-satisfiable")
+        st.update(c=Cv.t)
+        # n is only known after the first statement; the invariant reads it lazily
+        f(me, X, Cv, Pv, lb, ub, "nm")
+        H = me.store.holds.t
+        beta, gamma = st["beta"], st["gamma"]
+        n = me.created[0]["indexes"].n
+        Sb, Sg = c.sums[0], c.sums[1]
+        c.assume(Sb.defn())
+        c.assume(Sg.defn())
+        x, cc, p = X.t, Cv.t, Pv.t
+        bnd_b, bnd_g = me.created[0]["bounds"], me.created[1]["bounds"]
+        # --- lemma LM1 (prod_sum), by induction: if every component is bit*c then S_gamma(j) = c * S_beta(j)
+        inst = lambda j: [Sb.step(j), Sg.step(j),
+                          z3.Implies(z3.And(all_prod(n), j >= 0, j < n), gamma(j) == z3.ToReal(beta(j)) * cc)]
+        lm1 = induct(c, "LM1-sum-of-components=c*sum-of-bits", lambda j: Sg.S(j) == cc * z3.ToReal(Sb.S(j)), n, prop=P, hyps=[all_prod(n)],
+                     step_facts=inst)
+        c.assume(lm1)
+        # --- lemma LM2a (bits_le): 0 <= S_beta(j) <= 2^j - 1 when the bits are 0/1
+        lm2 = induct(c, "LM2-bit-sum-bounded-by-2^j-1", lambda j: z3.And(Sb.S(j) >= 0, Sb.S(j) <= core.POW2(j) - 1), n, prop=P, hyps=[bnd_b])
+        c.assume(lm2)
+        c.prove("post:sound(rows=>p=x*c)", z3.Implies(H, z3.And(H0, p == z3.ToReal(x) * cc)), prop=P)
+        c.prove("post:sound(rows=>0<=x<=2^n-1)", z3.Implies(H, z3.And(x >= 0, x <= core.POW2(n) - 1)), prop=P)
+        # --- completeness: witnesses for the fresh columns: beta = binary digits of x (top-down remainders), gamma = beta*c
+        rem = z3.Function("rem", INT, INT)
+        i = z3.Int("iw")
+        wit_b = z3.And(rem(n) == x, z3.ForAll([i], z3.Implies(z3.And(i >= 0, i < n), z3.And(
+            beta(i) == z3.If(rem(i + 1) >= core.POW2(i), 1, 0), rem(i) == rem(i + 1) - beta(i) * core.POW2(i)))))
+        wit_g = all_prod(n)
+        adm = z3.And(x >= 0, z3.ToReal(x) <= ub.t, p == z3.ToReal(x) * cc)
+        hy = [wit_b, adm]
+        lmA = induct(c, "LM2-remainders-in-range(downward)", lambda k: z3.And(rem(n - k) >= 0, rem(n - k) < core.POW2(n - k)), n, prop=P, hyps=hy)
+        c.assume(lmA)
+        lmB = induct(c, "LM2-bit-sum=remainder", lambda j: Sb.S(j) == rem(j), n, prop=P, hyps=hy)
+        c.assume(lmB)
+        c.lemma("post:complete(p=x*c=>rows-satisfiable):bit-bounds", z3.Implies(z3.And(*hy), bnd_b), prop=P, kind="post")
+        c.lemma("post:complete(p=x*c=>rows-satisfiable):bits-sum-to-x", z3.Implies(z3.And(*hy), Sb.S(n) == x), prop=P, kind="post")
+        c.lemma("post:complete(p=x*c=>rows-satisfiable):component-bounds", z3.Implies(z3.And(wit_g, *hy), bnd_g), prop=P, kind="post")
+        c.lemma("post:complete(p=x*c=>rows-satisfiable):components-sum-to-p", z3.Implies(z3.And(wit_g, *hy), Sg.S(n) == p), prop=P, kind="post")
+        c.lemma("aux:store-before-loop-is-H0+bounds+bit-row", st["Hpre"] == z3.And(H0, bnd_b, Sb.S(n) == x, bnd_g), kind="post")
+        c.prove("post:complete(p=x*c=>rows-satisfiable)", z3.Implies(z3.And(H0, wit_g, *hy), H), prop=P)
+
+    class _N:       # lazy access to n inside the invariant
+        pass
+
+    def inv2(ns, seq, done):
+        st["n"] = lift(seq.length())
+        return inv(ns, seq, done)
+    loops = {0: dict(inv=inv2, on_entry=on_entry, modifies=[(("self", "store", "holds"), None)],
+                     prop={"sound(rows=>component_i=bit_i*c)": P, "complete(component_i=bit_i*c=>rows)": P})}
+    globs = dict(BASE_GLOBS, log2=log2_stub, ceil=ceil_stub)
+    return Unit(F, "SolverWrapper.add_integer_continuous_product_constraint", h, globs=globs, loops=loops, props=[P],
+                assumptions=[A3, LM5, "clog2: ceil(log2(y)) for y>=1 is the least n>=0 with 2**n >= y (float log2 treated as exact; swept exhaustively in the bounded part)",
+                             "induction principle over naturals (engine rule `induct`)"],
+                callee_contracts=["SolverWrapper.add_constraint", "SolverWrapper.quicksum", "SolverWrapper.add_variables (scalar bounds)",
+                                  "SolverWrapper.add_binary_continuous_product_constraint"])
+
+
+# ---------------------------------------------------------------------------------------------
+# bound queue
+
+def _queues(me, c):
+    """arbitrary queue contents satisfying the class invariant Inv_SW: aligned lengths, distinct columns inside each queue"""
+    me._pending_fix_vars = SymSeq.fresh("fixq.vars", SVar(REAL))
+    me._pending_fix_vals = SymSeq.fresh("fixq.vals", SReal, n=me._pending_fix_vars.n)
+    me._pending_lb_vars = SymSeq.fresh("lbq.vars", SVar(REAL))
+    me._pending_lb_vals = SymSeq.fresh("lbq.vals", SReal, n=me._pending_lb_vars.n)
+    a, b = z3.Ints("qa qb")
+    Fi = lambda q: me._pending_fix_vars._at(q).index.t
+    Li = lambda q: me._pending_lb_vars._at(q).index.t
+    nf, nl = me._pending_fix_vars.n, me._pending_lb_vars.n
+    c.assume(z3.ForAll([a, b], z3.Implies(z3.And(0 <= a, a < b, b < nf), Fi(a) != Fi(b))))
+    c.assume(z3.ForAll([a, b], z3.Implies(z3.And(0 <= a, a < b, b < nl), Li(a) != Li(b))))
+    return Fi, Li, nf, nl
+
+
+def u_queue_fix():
+    def h(c, f):
+        me = SW()
+        _queues(me, c)
+        old = {k: getattr(me, k).copy() for k in ("_pending_fix_vars", "_pending_fix_vals", "_pending_lb_vars", "_pending_lb_vals")}
+        v = Var(z3.Real("v"), z3.Int("vcol"))
+        val = Sym(z3.Real("val"))
+        f(me, v, val)
+        j = z3.Int("jq")
+        n0 = old["_pending_fix_vars"].n
+        c.prove("post:fix-queue-extended-by-(var,value)", z3.And(
+            me._pending_fix_vars.n == n0 + 1, me._pending_fix_vals.n == n0 + 1,
+            me._pending_fix_vars._at(n0).index.t == v.index.t, lift(me._pending_fix_vals._at(n0)) == val.t,
+            z3.ForAll([j], z3.Implies(z3.And(j >= 0, j < n0), z3.And(
+                me._pending_fix_vars._at(j).index.t == old["_pending_fix_vars"]._at(j).index.t,
+                lift(me._pending_fix_vals._at(j)) == lift(old["_pending_fix_vals"]._at(j)))))), prop=P)
+        c.prove("post:lb-queue-untouched", z3.And(me._pending_lb_vars.n == old["_pending_lb_vars"].n, me._pending_lb_vals.n == old["_pending_lb_vals"].n), prop=P)
+    return Unit(F, "SolverWrapper.queue_fix_variable", h, globs=BASE_GLOBS, props=[P])
+
+
+def u_queue_lb():
+    def h(c, f):
+        me = SW()
+        _queues(me, c)
+        old = {k: getattr(me, k).copy() for k in ("_pending_fix_vars", "_pending_fix_vals", "_pending_lb_vars", "_pending_lb_vals")}
+        v = Var(z3.Real("v"), z3.Int("vcol"))
+        val = Sym(z3.Int("ival"))
+        f(me, v, val)
+        j = z3.Int("jq")
+        n0 = old["_pending_lb_vars"].n
+        c.prove("post:lb-queue-extended-by-(var,value)", z3.And(
+            me._pending_lb_vars.n == n0 + 1, me._pending_lb_vals.n == n0 + 1,
+            me._pending_lb_vars._at(n0).index.t == v.index.t, lift(me._pending_lb_vals._at(n0)) == z3.ToReal(val.t),
+            z3.ForAll([j], z3.Implies(z3.And(j >= 0, j < n0), z3.And(
+                me._pending_lb_vars._at(j).index.t == old["_pending_lb_vars"]._at(j).index.t,
+                lift(me._pending_lb_vals._at(j)) == lift(old["_pending_lb_vals"]._at(j)))))), prop=P)
+        c.prove("post:fix-queue-untouched", z3.And(me._pending_fix_vars.n == old["_pending_fix_vars"].n, me._pending_fix_vals.n == old["_pending_fix_vals"].n), prop=P)
+    return Unit(F, "SolverWrapper.queue_set_var_lower_bound", h, globs=BASE_GLOBS, props=[P])
+
+
+def bounds_post(c, hs, Fi, Li, Fv, Lv, nf, nl, lb0, ub0, tag=""):
+    """the property clause `queued bound changes set exactly the requested bounds` over column arrays"""
+    p, q, col = z3.Int("bp"), z3.Int("bq"), z3.Int("bcol")
+    lb1, ub1 = hs.lb, hs.ub
+    infix = lambda cc: z3.Exists([p], z3.And(p >= 0, p < nf, Fi(p) == cc))
+    inlb = lambda cc: z3.Exists([q], z3.And(q >= 0, q < nl, Li(q) == cc))
+    c.prove(tag + "post:queued-lower-bound=>lb=value", z3.ForAll([q], z3.Implies(z3.And(q >= 0, q < nl), lb1[Li(q)] == Lv(q))), prop=P)
+    c.prove(tag + "post:queued-lower-bound=>ub-unchanged", z3.ForAll([q], z3.Implies(z3.And(q >= 0, q < nl, z3.Not(infix(Li(q)))), ub1[Li(q)] == ub0[Li(q)])), prop=P)
+    c.prove(tag + "post:queued-fix=>ub=value", z3.ForAll([p], z3.Implies(z3.And(p >= 0, p < nf), ub1[Fi(p)] == Fv(p))), prop=P)
+    c.prove(tag + "post:queued-fix=>lb=value(unless-also-lb-queued)", z3.ForAll([p], z3.Implies(z3.And(p >= 0, p < nf, z3.Not(inlb(Fi(p)))), lb1[Fi(p)] == Fv(p))), prop=P)
+    c.prove(tag + "post:other-columns-unchanged", z3.ForAll([col], z3.Implies(z3.And(z3.Not(infix(col)), z3.Not(inlb(col))), z3.And(lb1[col] == lb0[col], ub1[col] == ub0[col]))), prop=P)
+
+
+def u_apply_pending():
+    def h(c, f):
+        import sys
+        import types
+        me = SW()
+        Fi, Li, nf, nl = _queues(me, c)
+        Fv = lambda q, s=me._pending_fix_vals: lift(s._at(q))
+        Lv = lambda q, s=me._pending_lb_vals: lift(s._at(q))
+        fv_at, lv_at = me._pending_fix_vals._at, me._pending_lb_vals._at
+        fi_at, li_at = me._pending_fix_vars._at, me._pending_lb_vars._at
+        Fi = lambda q: fi_at(q).index.t
+        Li = lambda q: li_at(q).index.t
+        Fv = lambda q: lift(fv_at(q))
+        Lv = lambda q: lift(lv_at(q))
+        hs = me.solver
+        lb0, ub0 = hs.lb, hs.ub
+        fake = types.ModuleType("numpy")
+        fake.array, fake.int32, fake.float64 = NP.array, None, None
+        saved = sys.modules.get("numpy")
+        sys.modules["numpy"] = fake           # the function does `import numpy as np` locally
+        raised = None
+        try:
+            f(me)
+        except Exception as e:              # noqa
+            raised = e
+        finally:
+            if saved is not None:
+                sys.modules["numpy"] = saved
+        c.prove("post:no-exception", raised is None, kind="post")
+        c.prove("post:queues-empty-on-exit", z3.And(me._pending_fix_vars.n == 0, me._pending_fix_vals.n == 0,
+                                                    me._pending_lb_vars.n == 0, me._pending_lb_vals.n == 0), prop=P)
+        if raised is None:
+            bounds_post(c, hs, Fi, Li, Fv, Lv, nf, nl, lb0, ub0)
+
+    def hasattr_(o, name):
+        if isinstance(o, HighsStub) and name == "changeColsLower":
+            return bool(o.has_changeColsLower)
+        return hasattr(o, name)
+
+    def replay(ob, model):
+        from vf.replay import replay_bound_queue
+        return replay_bound_queue(model)
+    return Unit(F, "SolverWrapper._apply_pending_bound_updates", h, globs=dict(BASE_GLOBS, hasattr=hasattr_), props=[P], replay=replay,
+                assumptions=[A1, "Inv_SW: columns inside one queue are pairwise distinct (HiGHS rejects index sets with duplicates)",
+                             "both outcomes of hasattr(solver, 'changeColsLower') are explored (installed highspy 1.15.1 lacks it)"])
+
+
+def apply_pending_stub(me):
+    """CONTRACT of _apply_pending_bound_updates used by `optimize`: havoc bounds, assume the five bound clauses, clear the queues"""
+    c = core.ctx()
+    hs = me.solver
+    fi_at, li_at, fv_at, lv_at = me._pending_fix_vars._at, me._pending_lb_vars._at, me._pending_fix_vals._at, me._pending_lb_vals._at
+    nf, nl = me._pending_fix_vars.n, me._pending_lb_vars.n
+    Fi, Li, Fv, Lv = (lambda q: fi_at(q).index.t), (lambda q: li_at(q).index.t), (lambda q: lift(fv_at(q))), (lambda q: lift(lv_at(q)))
+    lb0, ub0 = hs.lb, hs.ub
+    hs.lb, hs.ub = z3.Array(c.name("lb_after"), INT, REAL), z3.Array(c.name("ub_after"), INT, REAL)
+    sub = core.Ctx()
+    sub.fresh = c.fresh
+    bounds_post(sub, hs, Fi, Li, Fv, Lv, nf, nl, lb0, ub0)
+    for o in sub.obls:
+        c.assume(o.goal)
+    for q in (me._pending_fix_vars, me._pending_fix_vals, me._pending_lb_vars, me._pending_lb_vals):
+        q.clear()
+
+
+def u_optimize():
+    def mk(inf_limit):
+        def h(c, f):
+            me = SW()
+            _queues(me, c)
+            fi_at, li_at, fv_at, lv_at = me._pending_fix_vars._at, me._pending_lb_vars._at, me._pending_fix_vals._at, me._pending_lb_vals._at
+            nf, nl = me._pending_fix_vars.n, me._pending_lb_vars.n
+            Fi, Li, Fv, Lv = (lambda q: fi_at(q).index.t), (lambda q: li_at(q).index.t), (lambda q: lift(fv_at(q))), (lambda q: lift(lv_at(q)))
+            hs = me.solver
+            lb0, ub0 = hs.lb, hs.ub
+            me.did_timeout = Sym(z3.Bool("did_timeout0"))
+            me.time_limit = float("inf") if inf_limit else Sym(z3.Real("time_limit"))
+            me.use_also_custom_timeout = Sym(z3.Bool("use_custom"))
+            me._apply_pending_bound_updates = lambda: apply_pending_stub(me)
+            seen = {}
+
+            def solve():
+                seen["lb"], seen["ub"], seen["dt"] = hs.lb, hs.ub, me.did_timeout
+                seen["queues_empty"] = z3.And(me._pending_fix_vars.n == 0, me._pending_lb_vars.n == 0)
+                seen["n"] = seen.get("n", 0) + 1
+            hs.optimize = solve
+
+            def run_with_timeout(t, func):
+                func()
+            me._run_with_timeout = run_with_timeout
+            f(me)
+            tag = "inf:" if inf_limit else "finite:"
+            c.prove(tag + "post:solver-invoked-exactly-once", seen.get("n", 0) == 1, prop=P)
+            if seen.get("n"):
+                c.prove(tag + "post:timeout-flag-reset-before-solve", z3.Not(lift(seen["dt"])), prop="C13")
+                c.prove(tag + "post:queues-flushed-before-solve", seen["queues_empty"], prop=P)
+                hs.lb, hs.ub = seen["lb"], seen["ub"]
+                bounds_post(c, hs, Fi, Li, Fv, Lv, nf, nl, lb0, ub0, tag=tag + "at-solve:")
+        return h
+    return [Unit(F, "SolverWrapper.optimize", mk(inf), globs=dict(BASE_GLOBS), props=[P, "C13"], name="%s:SolverWrapper.optimize[%s]" % (F, "time_limit=inf" if inf else "finite time_limit"),
+                 callee_contracts=["SolverWrapper._apply_pending_bound_updates", "SolverWrapper._run_with_timeout (calls func once; SIGALRM handler may set did_timeout)"],
+                 assumptions=["_run_with_timeout invokes the solver exactly once (signal handling is outside the subset: A3 single-threaded)"])
+            for inf in (True, False)]
+
+
+def u_fix_variable():
+    def h(c, f):
+        me = SW()
+        hs = me.solver
+        lb0, ub0 = hs.lb, hs.ub
+        v = Var(z3.Real("v"), z3.Int("vcol"))
+        val = Sym(z3.Int("ival"))
+        f(me, v, val)
+        col = z3.Int("col")
+        c.prove("post:lb=ub=value", z3.And(hs.lb[v.index.t] == z3.ToReal(val.t), hs.ub[v.index.t] == z3.ToReal(val.t)), prop=P)
+        c.prove("post:other-columns-unchanged", z3.ForAll([col], z3.Implies(col != v.index.t, z3.And(hs.lb[col] == lb0[col], hs.ub[col] == ub0[col]))), prop=P)
+    return Unit(F, "SolverWrapper.fix_variable", h, globs=BASE_GLOBS, props=[P], assumptions=[A1])
+
+
+# ---------------------------------------------------------------------------------------------
+# objective
+
+class LinExpr:
+    """stub of highspy.highs_linear_expression (A1): `bounds` is None for a plain expression; unique_elements() lists every column
+    with a (merged) coefficient exactly once; ghost `coef` gives the coefficient of each column"""
+
+    def __init__(self, c, ncols, inequality=False):
+        self.coef = z3.Function(c.name("coef"), INT, REAL)
+        self.idxs = SymSeq.fresh("expr.idxs", SInt)
+        n = self.idxs.n
+        coef, idxs = self.coef, self.idxs
+        self.vals = SymSeq(n, lambda j: Sym(coef(lift(idxs._at(j)))), SReal, "expr.vals")
+        a, b, col = z3.Ints("ea eb ecol")
+        at = lambda j: lift(idxs._at(j))
+        c.assume(z3.ForAll([a, b], z3.Implies(z3.And(0 <= a, a < b, b < n), at(a) != at(b))))
+        c.assume(z3.ForAll([a], z3.Implies(z3.And(0 <= a, a < n), z3.And(at(a) >= 0, at(a) < ncols))))
+        pos = z3.Function(c.name("epos"), INT, INT)
+        c.assume(z3.ForAll([col], z3.Implies(coef(col) != 0, z3.And(pos(col) >= 0, pos(col) < n, at(pos(col)) == col))))
+        self.constant = Sym(z3.Real(c.name("expr.constant")))
+        self.bounds = (0, 1) if inequality else None
+
+    def unique_elements(self):
+        return self.idxs, self.vals
+
+
+def u_set_objective():
+    def mk(which):
+        def h(c, f):
+            me = SW()
+            hs = me.solver
+            called = []
+            hs.set_objective_without_solving = lambda expr, sense="minimize": called.append((expr, sense))
+            expr = LinExpr(c, hs.numVariables.t)
+            if which == "valid":
+                sense = Sym(z3.String("sense"))
+                c.assume(z3.Or(*[sense.t == z3.StringVal(x) for x in ("minimize", "min", "maximize", "max")]))
+                f(me, expr, sense)
+                c.prove("post:delegates-once-with-same-expression-and-sense", len(called) == 1 and called[0][0] is expr and called[0][1] is sense, prop=P)
+                c.prove("post:records-sense", lift(me.optimization_sense) == sense.t, prop=P)
+            else:
+                sense = Sym(z3.String("sense"))
+                c.assume(z3.And(*[sense.t != z3.StringVal(x) for x in ("minimize", "min", "maximize", "max")]))
+                try:
+                    f(me, expr, sense)
+                    c.prove("xpost:invalid-sense-raises-ValueError", False, prop=P, kind="xpost")
+                except ValueError:
+                    c.prove("xpost:invalid-sense-raises-ValueError", True, prop=P, kind="xpost")
+                    c.prove("xpost:objective-untouched-on-error", len(called) == 0, prop=P, kind="xpost")
+        return h
+    return [Unit(F, "SolverWrapper.set_objective", mk(w), globs=BASE_GLOBS, props=[P], name="%s:SolverWrapper.set_objective[%s sense]" % (F, w),
+                 callee_contracts=["HighsCustom.set_objective_without_solving"]) for w in ("valid", "invalid")]
+
+
+def u_set_objective_without_solving():
+    def h(c, f):
+        hs = HighsStub()
+        ncols = hs.numVariables.t
+        cost0, off0, sense0 = hs.cost, hs.offset, hs.sense
+        expr = LinExpr(c, ncols)
+        sense = Sym(z3.String("sense"))
+        valid = z3.Or(*[sense.t == z3.StringVal(x) for x in ("minimize", "min", "maximize", "max")])
+        try:
+            f(hs, expr, sense)
+        except ValueError:
+            c.prove("xpost:ValueError-only-for-invalid-sense", z3.Not(valid), prop=P, kind="xpost")
+            return
+        col = z3.Int("col")
+        c.prove("post:no-error=>sense-valid", valid, prop=P)
+        c.prove("post:cost-vector-is-exactly-the-new-expression(previous objective fully replaced)",
+                z3.ForAll([col], z3.Implies(z3.And(col >= 0, col < ncols), hs.cost[col] == expr.coef(col))), prop=P)
+        c.prove("post:offset-is-the-constant", hs.offset.t == expr.constant.t, prop=P)
+        c.prove("post:sense-as-requested", hs.sense.t == z3.If(z3.Or(sense.t == z3.StringVal("minimize"), sense.t == z3.StringVal("min")),
+                                                                z3.StringVal("kMinimize"), z3.StringVal("kMaximize")), prop=P)
+
+    def h_ineq(c, f):
+        hs = HighsStub()
+        cost0 = hs.cost
+        expr = LinExpr(c, hs.numVariables.t, inequality=True)
+        try:
+            f(hs, expr, "minimize")
+            c.prove("xpost:inequality-objective-rejected", False, prop=P, kind="xpost")
+        except Exception:
+            col = z3.Int("col")
+            c.prove("xpost:inequality-objective-rejected", True, prop=P, kind="xpost")
+            c.prove("xpost:cost-untouched", z3.ForAll([col], hs.cost[col] == cost0[col]), prop=P, kind="xpost")
+    g = dict(BASE_GLOBS)
+    return [Unit(F, "HighsCustom.set_objective_without_solving", h, globs=g, props=[P], super_obj=lambda o: o, assumptions=[A1]),
+            Unit(F, "HighsCustom.set_objective_without_solving", h_ineq, globs=g, props=[P], super_obj=lambda o: o,
+                 name=F + ":HighsCustom.set_objective_without_solving[inequality]")]
+
+
+# ---------------------------------------------------------------------------------------------
+# reading values back
+
+def u_get_values():
+    def mk(binary):
+        st = {}
+
+        def inv(ns, seq, done):
+            res = ns["result"]
+            d = lift(done)
+            j = z3.Int("jr")
+            kk = z3.Int("kr")
+            m = res.sym if getattr(res, "sym", None) is not None else None
+            if m is None:
+                return {"result-empty-before-first-iteration": d == 0}
+            items = st["items"]
+            key = lambda q: lift(items._at(q)[0])
+            var = lambda q: items._at(q)[1]
+            val = lambda q: st["values"][var(q).index.t]
+            got = lambda q: (z3.ToReal(lift(m._val(Sym(key(q))))) if lift(m._val(Sym(key(q)))).sort() == INT else lift(m._val(Sym(key(q)))))
+            tol = z3.RealVal("1e-9")
+            ok = (lambda q: z3.And(z3.Or(got(q) == 0, got(q) == 1), val(q) - got(q) <= tol, got(q) - val(q) <= tol)) if binary else (lambda q: got(q) == val(q))
+            return {"keys-so-far-are-in-result-with-their-column-value": z3.ForAll([j], z3.Implies(z3.And(j >= 0, j < d), z3.And(m._dom(Sym(key(j))), ok(j)))),
+                    "result-has-no-other-key": z3.ForAll([kk], z3.Implies(m._dom(Sym(kk)), z3.Exists([j], z3.And(j >= 0, j < d, key(j) == kk))))}
+
+        def rt_round(x):
+            from pyvc.rt import ROUND
+            return ROUND(x)
+
+        def havoc_result(old):
+            from pyvc.rt import SymDict
+            d = SymDict()
+            d.sym = SymMap.fresh("result", SInt, SInt if binary else SReal)
+            return d
+
+        def h(c, f):
+            me = SW()
+            hs = me.solver
+            ncols = hs.numVariables.t
+            variables = SymMap.fresh("variables", SInt, SVar(REAL))
+            kq = z3.Int("kq")
+            c.assume(z3.ForAll([kq], z3.Implies(variables._dom(Sym(kq)), z3.And(variables._val(Sym(kq)).index.t >= 0, variables._val(Sym(kq)).index.t < ncols))))
+            me.get_all_variable_values = lambda: hs.allVariableValues()
+            st["items"] = variables.items()
+            variables.items = lambda: st["items"]
+            st["values"] = hs.values
+            try:
+                res = f(me, variables, binary)
+            except Exception as e:
+                if not binary:
+                    c.prove("xpost:no-exception-without-binary-check", False, prop=P, kind="xpost")
+                else:
+                    c.note("binary_values=True: exception path (a value not within tolerance of 0/1) reached")
+                    c.prove("xpost:exception-is-the-non-binary-report", "non-binary" in str(e), kind="xpost")
+                return
+            m = res.sym if getattr(res, "sym", None) is not None else None
+            n = st["items"].n
+            if m is None:
+                c.prove("post:empty-result-only-for-empty-request", n == 0, prop=P)
+                return
+            k = z3.Int("kget")
+            vk = lift(m._val(Sym(k)))
+            vk = z3.ToReal(vk) if vk.sort() == INT else vk
+            colval = hs.values[variables._val(Sym(k)).index.t]
+            # instantiate the enumeration's inverse for the arbitrary key k
+            variables.index_of(Sym(k))
+            c.prove("post:result-keys=exactly-the-keys-asked-for", m._dom(Sym(k)) == variables._dom(Sym(k)), prop=P)
+            if binary:
+                tol = z3.RealVal("1e-9")
+                c.prove("post:value=rounded-column-value-within-tolerance", z3.Implies(variables._dom(Sym(k)), z3.And(
+                    z3.Or(vk == 0, vk == 1), colval - vk <= tol, vk - colval <= tol)), prop=P)
+            else:
+                c.prove("post:value=value-of-the-variable's-column", z3.Implies(variables._dom(Sym(k)), vk == colval), prop=P)
+        loops = {1: dict(inv=inv, havoc={"result": havoc_result}, keep=("value",),
+                         prop={"keys-so-far-are-in-result-with-their-column-value": P, "result-has-no-other-key": P})}
+        return Unit(F, "SolverWrapper.get_values", h, globs=dict(BASE_GLOBS), loops=loops, props=[P],
+                    name="%s:SolverWrapper.get_values[binary_values=%s]" % (F, binary), assumptions=[A1, A3, "mapping input (`.items()`); the iterable-of-pairs path runs through a generator and is left to the bounded part"])
+    return [mk(False), mk(True)]
+
+
+# ---------------------------------------------------------------------------------------------
+# status
+
+def u_status():
+    def h(c, f):
+        me = SW()
+        me.did_timeout = Sym(z3.Bool("did_timeout"))
+        r = f(me)
+        if isinstance(r, str):
+            r = Sym(z3.StringVal(r))
+        c.prove("post:custom-timeout=>kTimeLimit", z3.Implies(me.did_timeout.t, r.t == z3.StringVal("kTimeLimit")), prop="C13")
+        c.prove("post:otherwise-solver-status-name", z3.Implies(z3.Not(me.did_timeout.t), r.t == me.solver.status_name.t), prop="C13")
+
+    def h2(c, f):
+        me = SW()
+        me.did_timeout = Sym(z3.Bool("did_timeout"))
+        f(me, 14, None)
+        c.prove("post:handler-sets-flag", me.did_timeout is True or lift(me.did_timeout) == z3.BoolVal(True), prop="C13")
+    return [Unit(F, "SolverWrapper.get_model_status", h, globs=BASE_GLOBS, props=["C13"]),
+            Unit(F, "SolverWrapper._timeout_handler", h2, globs=BASE_GLOBS, props=["C13"])]
+
+
+def all_units():
+    out = []
+    for f in (u_add_constraint, u_quicksum, u_binary_product, u_piecewise, u_integer_product, u_queue_fix, u_queue_lb, u_apply_pending,
+              u_optimize, u_fix_variable, u_set_objective, u_set_objective_without_solving, u_get_values, u_status):
+        r = f()
+        out += r if isinstance(r, list) else [r]
+    return out
